@@ -160,7 +160,7 @@ func drawC01(t *rapid.T, maxBlock, maxTotal int) C01Case {
 		maxLen = (int(c.Cfg.Jobs) + 3) * bs
 	}
 	if heavy := c.Cfg.Entropy == "TPAQ" || c.Cfg.Entropy == "TPAQX" || c.Cfg.Entropy == "CM"; heavy {
-		maxLen = min(maxLen, 128*1024)
+		maxLen = min(maxLen, 128*1024, 3*bs) // every TPAQ block zeroes ~5 MiB of tables: keep such cases to a few blocks
 	}
 	maxLen = min(maxLen, maxTotal)
 	c.Data = gen.DrawRecipe(t, maxLen, "data")
